@@ -952,18 +952,127 @@ Proof.
   apply (reader_correct_lines ls dirs gs ts Hl Hdom Hsimple Hsem).
 Qed.
 
-Lemma groups_only_inv d : groups_only d = true -> exists gs, d = map IGrp gs.
+(** ** documents with directives between the statement groups *)
+
+Lemma process_lines_app : forall a b s,
+  process_lines (a ++ b) s =
+  match process_lines a s with
+  | (ts, Ok s') => let (ts', r) := process_lines b s' in (ts ++ ts', r)
+  | (ts, Err e) => (ts, Err e)
+  end.
 Proof.
-  induction d as [|[x|g] d IH]; intros H; [exists []; reflexivity | discriminate H|].
-  destruct (IH H) as (gs & ->). exists (g :: gs). reflexivity.
+  induction a as [|l a IH]; intros b s; cbn [app process_lines].
+  - destruct (process_lines b s); reflexivity.
+  - destruct (process_line l s) as [ts [s'|e]]; [|reflexivity].
+    rewrite IH. destruct (process_lines a s') as [ts1 [s1|e1]]; [|reflexivity].
+    destruct (process_lines b s1) as [ts2 r2]. rewrite app_assoc. reflexivity.
 Qed.
 
-Lemma prologue_form_inv d : prologue_form d = true -> exists dirs gs, d = map IDir dirs ++ map IGrp gs.
+Lemma sem_from_groups_app e gs rest :
+  sem_from e (map IGrp gs ++ rest) =
+  match sem_from e (map IGrp gs), sem_from e rest with
+  | Some a, Some b => Some (a ++ b)
+  | _, _ => None
+  end.
 Proof.
-  induction d as [|[x|g] d IH]; intros H.
-  - exists [], []. reflexivity.
-  - destruct (IH H) as (dirs & gs & ->). exists (x :: dirs), gs. reflexivity.
-  - cbn [prologue_form] in H. destruct (groups_only_inv d H) as (gs & ->). exists [], (g :: gs). reflexivity.
+  induction gs as [|g gs IH]; cbn [map app sem_from].
+  - destruct (sem_from e rest); reflexivity.
+  - rewrite IH. destruct (sem_group e g) as [t|]; [|reflexivity].
+    destruct (sem_from e (map IGrp gs)) as [a|]; [|reflexivity].
+    destruct (sem_from e rest) as [b|]; [rewrite app_assoc|]; reflexivity.
+Qed.
+
+Lemma rc_doc_groups_app e gs rest :
+  rc_doc e (map IGrp gs ++ rest) = flat_map (rc_group e) gs ++ rc_doc e rest.
+Proof.
+  induction gs as [|g gs IH]; [reflexivity|]. cbn [map app rc_doc flat_map]. rewrite IH, app_assoc. reflexivity.
+Qed.
+
+Lemma inr_prefix {A B} : forall (a T0 : list B) (X R : list (A + B)) (x : A),
+  map inr a ++ X = map inr T0 ++ inl x :: R ->
+  exists T0', T0 = a ++ T0' /\ X = map inr T0' ++ inl x :: R.
+Proof.
+  induction a as [|y a IH]; intros T0 X R x H; [exists T0; split; [reflexivity | exact H]|].
+  destruct T0 as [|t T0]; cbn [map app] in H; [discriminate H|].
+  injection H as -> H. destruct (IH T0 X R x H) as (T0' & -> & HX). exists T0'. split; [reflexivity | exact HX].
+Qed.
+
+(** the lines up to the first directive carry exactly the tokens before it *)
+Lemma split_at_directive : forall ls (T0 : list atok) x R,
+  flat_map line_stream ls = map inr T0 ++ inl x :: R ->
+  exists ls1 lead gaps cmt ls2,
+    ls = ls1 ++ LDir lead x gaps cmt :: ls2 /\
+    flat_map line_stream ls1 = map inr T0 /\ flat_map line_stream ls2 = R.
+Proof.
+  induction ls as [|l ls IH]; intros T0 x R H; [destruct T0; discriminate H|].
+  destruct l as [lead toks cmt|lead d gaps cmt]; cbn [flat_map line_stream] in H.
+  - rewrite <- map_map in H. destruct (inr_prefix _ _ _ _ _ H) as (T0' & -> & HX).
+    destruct (IH T0' x R HX) as (ls1 & lead' & gaps' & cmt' & ls2 & -> & H1 & H2).
+    exists (LToks lead toks cmt :: ls1), lead', gaps', cmt', ls2. split; [reflexivity|]. split; [|exact H2].
+    cbn [flat_map line_stream]. rewrite H1, map_app, map_map. reflexivity.
+  - destruct T0 as [|t T0]; cbn [map app] in H; [|discriminate H]. injection H as -> H.
+    exists [], lead, gaps, cmt, ls. repeat split. exact H.
+Qed.
+
+Lemma run_doc_gen : forall d gs0 ls e s ts,
+  env_match e s -> state s = WS -> forallb line_ok0 ls = true ->
+  flat_map line_stream ls = map inr (flat_map group_tokens gs0) ++ flat_map item_stream d ->
+  forallb group_wf gs0 = true ->
+  forallb (fun i => match i with IGrp g => group_wf g | IDir x => dir_wf x end) d = true ->
+  rc_free (rc_doc e (map IGrp gs0 ++ d)) = true ->
+  sem_from e (map IGrp gs0 ++ d) = Some ts ->
+  exists s' ts', process_lines (map render_line ls) s = (ts', Ok s') /\
+                 map erase_lex ts' = map erase_lex ts /\ state s' = WS.
+Proof.
+  induction d as [|i d IH]; intros gs0 ls e s ts Hm Hst Hok Hstream Hg0 Hdwf Hrc Hsem.
+  - cbn [flat_map] in Hstream. rewrite app_nil_r in Hstream, Hrc, Hsem.
+    assert (Hrcg : rc_free (flat_map (rc_group e) gs0) = true).
+    { rewrite <- (app_nil_r (map IGrp gs0)), rc_doc_groups_app in Hrc. cbn [rc_doc] in Hrc. rewrite app_nil_r in Hrc. exact Hrc. }
+    destruct (run_groups e s gs0 ls ts Hm Hst Hok Hstream Hg0 Hrcg Hsem) as (s' & ts' & A & B & _ & C). eauto.
+  - cbn [forallb] in Hdwf. apply andb_true_iff in Hdwf. destruct Hdwf as (Hi & Hdwf).
+    destruct i as [x|g].
+    + (* a directive: the lines before it close the pending groups *)
+      cbn [flat_map item_stream app] in Hstream.
+      destruct (split_at_directive ls _ x _ Hstream) as (ls1 & lead & gaps & cmt & ls2 & -> & H1 & H2).
+      rewrite forallb_app in Hok. apply andb_true_iff in Hok. destruct Hok as (Hok1 & Hok2).
+      cbn [forallb] in Hok2. apply andb_true_iff in Hok2. destruct Hok2 as (Hl & Hok2).
+      unfold line_ok0 in Hl. apply andb_true_iff in Hl. destruct Hl as (Hlwf & Hlsimple).
+      rewrite rc_doc_groups_app in Hrc. apply rc_free_app in Hrc. destruct Hrc as (Hrc0 & Hrc).
+      cbn [rc_doc] in Hrc. apply rc_free_app in Hrc. destruct Hrc as (Hrcd & Hrc).
+      rewrite sem_from_groups_app in Hsem.
+      destruct (sem_from e (map IGrp gs0)) as [ta|] eqn:Ea; [|discriminate Hsem].
+      destruct (sem_from e (IDir x :: d)) as [tb|] eqn:Eb; [|discriminate Hsem]. inversion Hsem; subst ts.
+      destruct (run_groups e s gs0 ls1 ta Hm Hst Hok1 H1 Hg0 Hrc0 Ea) as (s1 & ts1 & A1 & B1 & Hm1 & C1).
+      destruct (process_dir_line lead x gaps cmt e s1 Hlwf Hi (rc_free_nil _ Hrcd) Hlsimple Hm1)
+        as (e' & s2 & Hsd & Hpl & Hm2 & Hst2).
+      cbn [sem_from] in Eb. rewrite Hsd in Eb, Hrc.
+      destruct (IH [] ls2 e' s2 tb Hm2 (eq_trans Hst2 C1) Hok2 H2 eq_refl Hdwf Hrc Eb) as (s3 & ts3 & A3 & B3 & C3).
+      exists s3, (ts1 ++ ts3). rewrite map_app, process_lines_app, A1. cbn [map process_lines]. rewrite Hpl, A3.
+      split; [reflexivity|]. split; [rewrite !map_app, B1, B3; reflexivity | exact C3].
+    + (* one more group joins the pending ones *)
+      apply (IH (gs0 ++ [g]) ls e s ts Hm Hst Hok).
+      * rewrite flat_map_app, map_app. cbn [flat_map item_stream] in Hstream |- *. rewrite app_nil_r, <- app_assoc. exact Hstream.
+      * rewrite forallb_app. cbn [forallb]. rewrite Hg0, Hi. reflexivity.
+      * exact Hdwf.
+      * rewrite map_app, <- app_assoc. exact Hrc.
+      * rewrite map_app, <- app_assoc. exact Hsem.
+Qed.
+
+(** C07 (partial) for any well-formed document: only [line_simple] remains *)
+Theorem reader_correct_general ls d ts :
+  lays_out ls d -> C07_dom ls d = true -> forallb line_simple ls = true -> sem d = Some ts ->
+  exists s' ts', read_ttl (render_doc ls) = (ts', Ok s') /\
+                 map erase_lex ts' = map erase_lex ts /\ state s' = WS.
+Proof.
+  intros Hl Hdom Hsimple Hsem. unfold read_ttl. rewrite (doc_lines_render ls d st0 Hl).
+  destruct Hl as (Hlwf & Hdwf & Hstream).
+  unfold C07_dom, C07_rcs in Hdom.
+  assert (Hrc : rc_free (rc_doc env0 d) = true).
+  { destruct (rc_doc env0 d ++ flat_map rc_line ls) eqn:E; [|discriminate].
+    apply app_eq_nil in E. destruct E as (E & _). rewrite E. reflexivity. }
+  apply (run_doc_gen d [] ls env0 st0 ts env_match0 eq_refl); auto.
+  rewrite forallb_forall. intros l Hin. unfold line_ok0. rewrite forallb_forall in Hlwf, Hsimple.
+  rewrite (Hlwf l Hin), (Hsimple l Hin). reflexivity.
 Qed.
 
 Theorem reader_correct_dom ls d ts :
@@ -971,7 +1080,6 @@ Theorem reader_correct_dom ls d ts :
   exists s' ts', read_ttl (render_doc ls) = (ts', Ok s') /\
                  map erase_lex ts' = map erase_lex ts /\ state s' = WS.
 Proof.
-  intros Hl Hdom Hsem. unfold C07_partial_dom in Hdom. rewrite !andb_true_iff in Hdom. destruct Hdom as ((Hd & Hs) & Hp).
-  destruct (prologue_form_inv d Hp) as (dirs & gs & ->).
-  apply (reader_correct ls dirs gs ts Hl Hd Hs Hsem).
+  intros Hl Hdom Hsem. unfold C07_partial_dom in Hdom. apply andb_true_iff in Hdom. destruct Hdom as (Hd & Hs).
+  apply (reader_correct_general ls d ts Hl Hd Hs Hsem).
 Qed.
